@@ -26,26 +26,27 @@ NeedsOf(rs) == Concat([i \in 1..Len(rs) |-> IF rs[i].st = "need" THEN rs[i].need
 Skip == Ok(<<>>)                                   \* a candidate explanation that does not apply
 
 \* the passphrase is not in normal form (only asked once the nfc fact is there)
-NonNfc(F, cps) == Has(F, QNfc(cps)) /\ Val(F, QNfc(cps)) # cps
+PW(r) == [text |-> ~r.pwbytes, s |-> r.pw]          \* r.pwbytes: the passphrase argument was a bytes object
+NonNfc(F, pw) == pw.text /\ Has(F, QNfc(pw.s)) /\ Val(F, QNfc(pw.s)) # pw.s
 WitnessRoute(route) == route \in {"HDKey-segwit", "HDKey-p2sh-segwit", "HDKey-default"}
 
 (* ---- encryption without EC multiplication ---- *)
 JEnc(r) ==
     LET F    == r.facts
         ver  == AddrVersion[r.net]
-        spec == EncryptNonEC(F, r.priv, r.comp, ver, r.pw, TRUE)
+        spec == EncryptNonEC(F, r.priv, r.comp, ver, PW(r), TRUE)
         \* deviation: passphrase used as given
-        raw  == IF NonNfc(F, r.pw) THEN EncryptNonEC(F, r.priv, r.comp, ver, r.pw, FALSE) ELSE Skip
+        raw  == IF NonNfc(F, PW(r)) THEN EncryptNonEC(F, r.priv, r.comp, ver, PW(r), FALSE) ELSE Skip
         \* deviation: salt (address hash) taken over some other address - everything else as specified
         gotraw == IF r.got.ok /\ IsB58(r.got.tok) THEN B58Dec(r.got.tok) ELSE <<>>
-        own  == IF WitnessRoute(r.route) /\ Len(gotraw) = 43 /\ Has(F, QNfc(r.pw))
-                THEN EncryptWithAH(F, r.priv, r.comp, SubSeq(gotraw, 4, 7), PassBytes(F, r.pw, TRUE)) ELSE Skip
+        own  == IF WitnessRoute(r.route) /\ Len(gotraw) = 43 /\ Miss(F, PassQs(PW(r))) = <<>>
+                THEN EncryptWithAH(F, r.priv, r.comp, SubSeq(gotraw, 4, 7), PassBytes(F, PW(r), TRUE)) ELSE Skip
         all  == <<spec, raw, own>>
     IN IF NeedsOf(all) # <<>> THEN Ask(NeedsOf(all))
        ELSE IF spec.st = "err" THEN (IF r.got.ok THEN Verdict("encrypt-invalid-key-accepted", "", <<>>) ELSE Good)
        ELSE IF r.got.ok /\ r.got.tok = spec.val THEN Good
        ELSE Verdict(IF r.got.ok THEN "encrypt-token" ELSE "encrypt-refused",
-                    IF NonNfc(F, r.pw) /\ r.got.ok /\ r.got.tok = raw.val THEN "passphrase-not-nfc-normalised"
+                    IF NonNfc(F, PW(r)) /\ r.got.ok /\ r.got.tok = raw.val THEN "passphrase-not-nfc-normalised"
                     ELSE IF WitnessRoute(r.route) /\ (~r.got.ok \/ (own.val # <<>> /\ r.got.tok = own.val))
                          THEN "hdkey-addresshash-of-witness-address"
                     ELSE "", spec.val)
@@ -62,34 +63,40 @@ KeyAsSeq(res) == IF res.st = "ok" THEN res.val.priv \o <<IF res.val.comp THEN 1 
 JDec(r) ==
     LET F    == r.facts
         ver  == AddrVersion[r.net]
-        spec == Decrypt(F, r.tok, r.pw, ver, TRUE)
-        raw  == IF NonNfc(F, r.pw) THEN Decrypt(F, r.tok, r.pw, ver, FALSE) ELSE Skip
+        spec == Decrypt(F, r.tok, PW(r), ver, TRUE)
+        raw  == IF NonNfc(F, PW(r)) THEN Decrypt(F, r.tok, PW(r), ver, FALSE) ELSE Skip
         isEC == IsB58(r.tok) /\ SubSeq(B58Dec(r.tok), 1, 2) = <<1, 67>>
         \* deviation: the address check of an EC-multiplied token is done with the Bitcoin main-net version byte
-        btc  == IF isEC /\ ver # 0 THEN Decrypt(F, r.tok, r.pw, 0, TRUE) ELSE Skip
+        btc  == IF isEC /\ ver # 0 THEN Decrypt(F, r.tok, PW(r), 0, TRUE) ELSE Skip
         all  == <<spec, raw, btc>>
     IN IF NeedsOf(all) # <<>> THEN Ask(NeedsOf(all))
        ELSE IF Matches(spec, r) THEN Good
        ELSE Verdict(IF spec.st = "err" THEN "decrypt-must-fail-but-returned-a-key"
                     ELSE IF ~r.got.ok THEN "decrypt-refused-right-passphrase" ELSE "decrypt-wrong-key",
-                    IF NonNfc(F, r.pw) /\ Matches(raw, r) THEN "passphrase-not-nfc-normalised"
+                    IF NonNfc(F, PW(r)) /\ Matches(raw, r) THEN "passphrase-not-nfc-normalised"
                     ELSE IF isEC /\ ver # 0 /\ Matches(btc, r) THEN "ecmult-decrypt-checks-bitcoin-address-only"
                     ELSE IF WitnessRoute(r.route) /\ ~isEC /\ spec.st = "ok" /\ ~r.got.ok
                          THEN "hdkey-addresshash-of-witness-address"
                     ELSE "", KeyAsSeq(spec))
 
+(* ---- the first sentence of the property, needing no oracle: what the implementation encrypted, the implementation   *)
+(*      decrypts with the very same passphrase argument to the same key and compression flag                            *)
+JRoundTrip(r) ==
+    IF r.encok /\ ~(r.got.ok /\ r.got.priv = r.priv /\ r.got.comp = r.comp)
+    THEN Verdict("round-trip-same-passphrase", "", r.priv \o <<IF r.comp THEN 1 ELSE 0>>) ELSE Good
+
 (* ---- intermediate code ---- *)
 JInter(r) ==
     LET F    == r.facts
-        spec == Intermediate(F, r.pw, r.lotseq, r.salt, TRUE)
-        raw  == IF NonNfc(F, r.pw) THEN Intermediate(F, r.pw, r.lotseq, r.salt, FALSE) ELSE Skip
+        spec == Intermediate(F, PW(r), r.lotseq, r.salt, TRUE)
+        raw  == IF NonNfc(F, PW(r)) THEN Intermediate(F, PW(r), r.lotseq, r.salt, FALSE) ELSE Skip
         all  == <<spec, raw>>
     IN IF NeedsOf(all) # <<>> THEN Ask(NeedsOf(all))
        ELSE IF spec.st = "err" THEN (IF r.got.ok THEN Verdict("intermediate-invalid-request-accepted", "", <<>>) ELSE Good)
        ELSE IF r.got.ok /\ r.got.code = spec.val THEN Good
        ELSE Verdict(IF r.got.ok THEN "intermediate-code" ELSE "intermediate-refused",
                     IF ~r.got.ok /\ r.lotseq # <<>> /\ r.lotseq[2] = 0 THEN "intermediate-sequence-zero-refused"
-                    ELSE IF NonNfc(F, r.pw) /\ r.got.ok /\ r.got.code = raw.val THEN "passphrase-not-nfc-normalised"
+                    ELSE IF NonNfc(F, PW(r)) /\ r.got.ok /\ r.got.code = raw.val THEN "passphrase-not-nfc-normalised"
                     ELSE "", spec.val)
 
 (* ---- new EC-multiplied key ---- *)
@@ -110,16 +117,16 @@ JNew(r) ==
 (*      The generator's entropy is recovered by decryption and the token is then rebuilt from it.                      *)
 JVector(r) ==
     LET F == r.facts
-        d == Decrypt(F, r.tok, r.pw, 0, TRUE)
+        d == Decrypt(F, r.tok, PW(r), 0, TRUE)
     IN IF d.st = "need" THEN Ask(d.need)
        ELSE IF ~(d.st = "ok" /\ d.val.priv = r.priv /\ d.val.comp = r.comp /\ d.val.lot = r.lot /\ d.val.seq = r.seq)
             THEN Verdict("vector-decrypt", "", KeyAsSeq(d))
        ELSE IF ~d.val.ec THEN
-            LET e == EncryptNonEC(F, r.priv, r.comp, 0, r.pw, TRUE) IN
+            LET e == EncryptNonEC(F, r.priv, r.comp, 0, PW(r), TRUE) IN
             IF e.st = "need" THEN Ask(e.need)
             ELSE IF e.st = "ok" /\ e.val = r.tok THEN Good ELSE Verdict("vector-encrypt", "", e.val)
        ELSE LET hasLot == r.lot # 0
-                it == Intermediate(F, r.pw, IF hasLot THEN <<r.lot, r.seq>> ELSE <<>>,
+                it == Intermediate(F, PW(r), IF hasLot THEN <<r.lot, r.seq>> ELSE <<>>,
                                    IF hasLot THEN SubSeq(d.val.oe, 1, 4) ELSE d.val.oe, TRUE)
             IN IF it.st = "need" THEN Ask(it.need)
                ELSE IF ~(it.st = "ok" /\ (r.pcode = <<>> \/ it.val = r.pcode)) THEN Verdict("vector-intermediate", "", it.val)
@@ -157,6 +164,7 @@ Judge(r) ==
       [] r.k = "dec"   -> JDec(r)
       [] r.k = "inter" -> JInter(r)
       [] r.k = "new"   -> JNew(r)
+      [] r.k = "rt"    -> JRoundTrip(r)
       [] r.k = "trace" -> Run({LedgerInit}, r.events, 1, <<>>)
       [] r.k = "vector" -> JVector(r)
       [] OTHER -> Verdict("unknown-record-kind", "", <<>>)
